@@ -417,6 +417,47 @@ def _numeric_filter(cands, ctx, pc, negs):
     return good
 
 
+def _numeric_witnesses(cands, ctx, pc, negs, margin=1e-4):
+    """candidates on which the path condition holds and some negated obligation holds WITH A MARGIN, judged numerically on the
+    symbolic expressions; candidates that cannot be evaluated are dropped (strict counterpart of _numeric_filter). Used to find
+    counterexamples of violated identities without waiting for the solver: each witness is still replayed on the real code."""
+    good = []
+    for d in cands:
+        val = {}
+        for nm, v in d.items():
+            if nm in ctx.by_name:
+                val[ctx.by_name[nm]] = v
+        val[ctx.pi] = math.pi
+        for i in range(len(ctx.names)):
+            if ctx.kind[i] == "real" and ctx.info[i].get("value") is not None:
+                val[i] = ctx.info[i]["value"]
+        if any(ctx.kind[i] == "real" and i not in val for i in range(len(ctx.names))):
+            continue
+        try:
+            if all(_holds(f, val, 1e-9) for f in pc) and any(_holds_strict(f, val, margin) for f in negs):
+                good.append(d)
+        except Exception:
+            continue
+    return good
+
+
+def _holds_strict(f, val, margin):
+    """numeric truth with a margin; anything that is not a constraint / complex disequality / and / or of those counts as not established"""
+    if isinstance(f, bool):
+        return False
+    if isinstance(f, Cons):
+        return _holds(f, val, -margin)
+    tag = f[0]
+    if tag == "or":
+        return any(_holds_strict(g, val, margin) for g in f[1])
+    if tag == "and":
+        return all(_holds_strict(g, val, margin) for g in f[1])
+    if tag == "cneq":
+        a, b = f[1].evaluate(val), f[2].evaluate(val)
+        return abs(a - b) > margin * max(1.0, abs(a), abs(b))
+    return False
+
+
 def _holds(f, val, tol):
     """numeric truth of a formula; tol>0 loosens constraints, tol<0 demands a margin for != and strict"""
     if isinstance(f, bool):
@@ -552,6 +593,18 @@ def run_shape(shape, tier="quick", seed=0):
         if not negs:
             rec["discharged"] += len(obls)
             rec["trivial"] += len(obls)
+            return
+        # cheap search for a counterexample before the solver is asked: a violated polynomial / trigonometric identity fails at
+        # almost every point, while the solver may need its whole budget to say so. A witness is only a CANDIDATE: it is
+        # replayed on the real code like a solver model; without a witness the solver decides as before
+        try:
+            wit = _numeric_witnesses(_candidate_values(env.inputs, ctx, None, rng, 6), ctx, pcs, negs) if env.inputs else []
+        except Exception:
+            wit = []
+        if wit:
+            labels = [o["label"] for o in obls if o["neg"] is not False]
+            pending.append(dict(cands=wit[:4], label=labels[0] if len(labels) == 1 else f"one of {labels[:4]}", pcs=pdesc, quiet=True,
+                                unknown="numeric counterexample candidate did not reproduce on the real code", path=str(prec["decisions"])))
             return
         verdict, model, dt, enc, solver = smt.solve(pcs + [smt.f_or(*negs)], timeout_ms=timeout_ms)
         if verdict == "unsat":
